@@ -343,6 +343,13 @@ func Corpus(e *Env) []Case {
 	add("tx-trusted", "tx", "trusted", txs[1])
 	add("ping-enc", "ping", "enc", make([]byte, 8))
 	add("getmpdone", "getmpdone", "", []byte{1})
+	// the only state in which GetMPDone looks at the payload: a signed authack(synchronised) queued a getmp request,
+	// the next Tick took the global ticket for it and sent getmp; now the peer answers
+	mine := []Msg{{"authack", "01"}, {"@tick", "0"}}
+	add("getmpdone-ours-empty", "getmpdone", "trusted", nil, mine...)
+	add("getmpdone-ours-0", "getmpdone", "trusted", []byte{0}, mine...)
+	add("getmpdone-ours-more", "getmpdone", "trusted", []byte{1}, mine...)
+	add("getmpdone-ours-long", "getmpdone", "trusted", []byte{2, 0, 0, 0}, mine...)
 	add("getaddr", "getaddr", "", nil)
 	add("getaddr-twice", "getaddr", "", nil, Msg{"getaddr", ""})
 	add("sendheaders", "sendheaders", "", nil)
